@@ -250,6 +250,9 @@ def main():
                       "errors": (results[u].get("summary") or {}).get("errors"), "sha256": results[u].get("sha256"),
                       "wall_s": round(results[u].get("wall", 0), 2), "canary": results[u].get("canary"),
                       "undecided_reason": results[u].get("undecided_reason")} for u in units},
+        "trusted_items": {u: results[u].get("trusted_items") for u in units},
+        "machine_arithmetic": "exec integers are fixed-width (Verus proves absence of overflow for every exec operation in the cone); the ghost ID counter, sums and "
+                              "positions in specifications are mathematical integers",
         "rewrite_rules_applied": sorted({"%s: %s" % (a, b) for u in units for fn in results[u].get("functions", []) for a, b in fn["rules"] if a != "G"})[:200],
         "status": status,
         "undecided": undecided,
